@@ -15,12 +15,56 @@ TARGETS = {
 RUNS = int(os.environ.get("PCV_FUZZ_RUNS", "3000000"))
 MAXT = int(os.environ.get("PCV_FUZZ_SECONDS", "150"))
 
+REPO = os.path.normpath(os.path.join(VERIF, "..", "repo"))
+
+def repo_content_hash():
+    """same rule as in ../check: the fuzz targets are rebuilt whenever the *content* of the crates under test
+    changed, whatever the file timestamps say"""
+    import hashlib
+    h = hashlib.sha256()
+    files = []
+    for root, dirs, names in os.walk(os.path.join(REPO, "source")):
+        dirs[:] = sorted(d for d in dirs if d not in ("target", ".git"))
+        for n in sorted(names):
+            if n.endswith((".rs", ".toml", ".lock")):
+                files.append(os.path.join(root, n))
+    for n in ("Cargo.toml", "Cargo.lock"):
+        f = os.path.join(REPO, n)
+        if os.path.exists(f):
+            files.append(f)
+    for f in files:
+        h.update(os.path.relpath(f, REPO).encode() + b"\0")
+        try:
+            with open(f, "rb") as fh:
+                h.update(fh.read())
+        except OSError:
+            pass
+        h.update(b"\0")
+    return h.hexdigest()
+
+def force_rebuild_if_repo_changed(env):
+    tdir = os.path.join(HERE, "target")
+    stamp = os.path.join(tdir, ".repo-content-sha256")
+    content = repo_content_hash()
+    try:
+        if open(stamp).read().strip() == content:
+            return
+    except OSError:
+        pass
+    if os.path.isdir(tdir):
+        subprocess.run(["cargo", "+nightly", "clean", "--release", "--target", "x86_64-unknown-linux-gnu", "--offline",
+                        "-p", "postcard", "-p", "postcard-schema", "-p", "postcard-dyn", "-p", "postcard-derive"],
+                       cwd=HERE, env=env, stdout=subprocess.DEVNULL, stderr=subprocess.DEVNULL)
+    os.makedirs(tdir, exist_ok=True)
+    open(stamp, "w").write(content)
+
 def main():
     pid, seed = sys.argv[1], sys.argv[2]
     targets = TARGETS.get(pid, [])
     if not targets:
         return 0
     env = dict(os.environ, CARGO_NET_OFFLINE="true", VERIF_DIR=VERIF, ASAN_OPTIONS="detect_leaks=0:allocator_may_return_null=1")
+    force_rebuild_if_repo_changed(env)
     r = subprocess.run(["sh", os.path.join(HERE, "build.sh")], env=env, stdout=subprocess.PIPE, stderr=subprocess.STDOUT, text=True)
     if r.returncode != 0:
         print("INCONCLUSIVE fuzz build failed\n" + r.stdout[-1500:])
